@@ -67,7 +67,7 @@ func buildReport(eng *Engine, cfg *PropConfig, prop, tier string, obligs []*Obli
 		tagTypes[eng.ctx.tagOf(tt)] = tt
 	}
 	for _, ob := range obligs {
-		if ob.Replay != nil {
+		if ob.Replay != nil && len(ob.Replay.TagTypes) == 0 {
 			ob.Replay.TagTypes = tagTypes
 		}
 	}
@@ -236,7 +236,7 @@ func (r *Report) finish(writeEvidence bool) int {
 			}
 			continue
 		}
-		if kf := isKnown(g.Name); kf != nil {
+		if kf := isKnown(g.Name); kf != nil && r.knownStillReproduces(kf) {
 			knownN++
 			lines = append(lines, fmt.Sprintf("KNOWN-FINDING: property=%s %s: %s", r.prop, g.Name, kf.What))
 			continue
